@@ -126,6 +126,7 @@ def big_docs():
     out.append(("ucs4-bom-48k", [H(b"\x00\x00\xfe\xff" + '<?xml version="1.0" encoding="UCS-4"?><r>'.encode("utf-32-be")), Rx(b"\x00\x00\x00x", 13000), H("</r>".encode("utf-32-be"))]))
     out.append(("utf16-lone-high-end", [H(b"\xff\xfe" + "<r>".encode("utf-16-le")), Rx(b"\x01\xdcx\x00", 9000), H("</r><".encode("utf-16-le") + b"\x00\xd8")]))
     out.append(("nul-run", [St("<r>"), Rx(b"\x00", 20000), St("</r>")]))
+    out.append(("mb3-run", [St("<r>"), ["u", 8364, 30000, ""], St("</r>")]))      # 90 KB of 3-byte characters: raw refills with left-over bytes
     return out
 
 
